@@ -325,6 +325,11 @@ func runC03(c *core.Ctx) {
 	runC03R5(c, pr)
 	// Channel.Write reaches the pipeline whenever the channel is open: its only early exit is the closed test
 	// (shared with C11-R1: the entry observes the closed flag, nothing else, before firing the event)
+	c.Rule("R7", "a failure under ctx.Write / ctx.Trigger is re-fired from the head of the pipeline (shared with C07-R1/R2)", 2)
+	ctxRecv := "(*" + pr.ctxT.Obj().Name() + ")."
+	importObligations(c, runC07, "R7", func(o *core.Obligation) bool {
+		return strings.Contains(o.Key, "ctx-member/") || (o.Rule == "R2" && strings.Contains(o.Key, ctxRecv))
+	})
 	c.Rule("R6", "Channel.Write's early exit is the closed-flag test only (shared with C11-R1)", 1)
 	importObligations(c, runC11, "R6", func(o *core.Obligation) bool {
 		return o.Rule == "R1" && strings.Contains(o.Key, "entry/") && strings.Contains(o.Key, ").Write")
